@@ -106,6 +106,8 @@ func init() {
 		{Name: "c01-fanin", MaxSteps: 24, FanIn: 24, Durs: []int64{5}, EqualDur: true, Modes: []string{"err", "crash"}, PBad: 100},
 		{Name: "c01-fanin-mixed", MaxSteps: 30, FanIn: 30, Durs: []int64{0, 5}, Modes: []string{"err", "crash", "panic"}, PBad: 70, PDeployFail: 20},
 		{Name: "c01-fanin-rterr", MaxSteps: 26, FanIn: 26, Durs: []int64{0, 5}, RuntimeErr: 90},
+		// loops whose `enabled` value depends on a step that may fail, with outputs fed only by error-path stages
+		{Name: "c01-loop-waits", MinSteps: 2, MaxSteps: 3, Durs: []int64{0, 5}, Foreach: 60, PDisabled: 80, PluginArith: true, Modes: []string{"err", "crash"}, PBad: 50, ErrOutput: true, OnlyErrOutputs: true, MaxOutputs: 2},
 		{Name: "c01-island", MinSteps: 1, MaxSteps: 3, Durs: []int64{0, 5, 50}, Modes: []string{"err", "crash"}, PBad: 60, PDeployFail: 20, HangIsland: true, MaxOutputs: 2},
 		{Name: "c01-errpath-only", MinSteps: 1, MaxSteps: 3, Durs: []int64{0, 5, 50}, Modes: []string{"err", "crash"}, PBad: 30, PDeployFail: 10, PDisabled: 20, ErrOutput: true, OnlyErrOutputs: true, MaxOutputs: 2},
 		{Name: "c01-errpath-island", MinSteps: 1, MaxSteps: 2, Durs: []int64{0, 5}, Modes: []string{"err"}, PBad: 20, ErrOutput: true, OnlyErrOutputs: true, HangIsland: true},
